@@ -185,6 +185,7 @@ func checkC05(w *World, r *Report) {
 	r.Rule("C05.avail", "P5,P7", "Sent grows only where currentlyLocked(pool) >= amount (ordering table: '<' => error, '=' and '>' => proceed) and amount is not negative; Withdrawn grows only by the result of CalculateWithdrawable", 4)
 	r.Rule("C05.rmwkey", "P6,P8", "read-modify-write of an owner's pools record: wherever a function both looks the record up and stores it, an Owner assigned to a freshly created record is the very expression used as lookup key (the store key is the record's Owner)", 1)
 	r.Rule("C05.key", "P8", "sibling agreement on the store key of an owner's pools record: it is stored under AccAddress.String() of the owner, so every lookup on the message trees uses AccAddress.String() of a parsed address, never the owner string as spelled in the message; the pool query does the same whenever the owner parses (found F22)", 4)
+	r.Rule("C05.rmw", "P4,P5", "read-modify-write isolation: between reading an owner's pool record and writing it back, an operation calls nothing that persists pool records itself (no lost update of counters that a nested operation already backed with a transfer)", 3)
 	r.Rule("C05.errprop", "P5", "in cfevesting message trees every error result of a bank or keeper call is tested, and its failure edge returns a non-nil error (event-emission errors may be logged and dropped)", 10)
 	r.Rule("C05.gen", "P5", "InitGenesis persists pools only after ValidateAccountsOnGenesis succeeded, which compares the sum of GetCurrentlyLocked with the module balance", 2)
 	r.Rule("C05.locked", "P6", "the currently-locked amount of a pool is InitiallyLocked minus Sent minus Withdrawn (exactly these three ledger fields), and pool validation rejects a negative value of each and of the difference", 5)
@@ -522,6 +523,66 @@ func checkC05(w *World, r *Report) {
 
 	// ---------- C05.avail ----------
 	c05avail(w, r, ops)
+	// ---------- C05.rmw ----------
+	// read-modify-write of an owner's pools is not interleaved with another writer of the same records: between the
+	// read of the record and its write-back no call may reach a persist of pool records (a nested operation that loads
+	// its own copy, changes it and stores it would be overwritten by the stale copy: coins have moved, the books have not)
+	{
+		nr := 0
+		for fn := range cg.Reach(ro.MSG["cfevesting"]) {
+			if !w.isProdFunc(fn) {
+				continue
+			}
+			var reads, writes []*Site
+			for _, s := range cg.Sites[fn] {
+				if calleeIs(s, "x/cfevesting/keeper.Keeper.GetAccountVestingPools") {
+					reads = append(reads, s)
+				}
+				if isPersist(s) {
+					writes = append(writes, s)
+				}
+			}
+			if len(reads) == 0 || len(writes) == 0 {
+				continue
+			}
+			for _, g := range reads {
+				for _, pw := range writes {
+					if !canReach(g.Instr, pw.Instr) {
+						continue
+					}
+					nr++
+					bad := ""
+					for _, c := range cg.Sites[fn] {
+						if c == pw || c == g || isPersist(c) && c == pw {
+							continue
+						}
+						if !canReach(g.Instr, c.Instr) || !canReach(c.Instr, pw.Instr) || c.Instr == g.Instr {
+							continue
+						}
+						nested := isPersist(c)
+						for _, callee := range c.Callees {
+							if callee == fn {
+								continue
+							}
+							if len(cg.targetsBelow(callee, isPersist, map[*ssa.Function]bool{})) > 0 {
+								nested = true
+							}
+							for _, x := range cg.Sites[callee] {
+								if isPersist(x) {
+									nested = true
+								}
+							}
+						}
+						if nested {
+							bad = c.CalleeName() + " at " + w.Pos(c.Instr.Pos())
+						}
+					}
+					r.Check(bad == "", "C05.rmw", funcName(fn)+": no other writer of pool records between the read and the write-back", w.Pos(pw.Instr.Pos()), "read ... modify ... write without a nested persist", "between reading the owner's pools and writing them back the operation calls "+bad+", which persists pool records itself: whatever that call changed (withdrawn counters after coins were paid) is overwritten by the stale copy")
+				}
+			}
+		}
+		r.Check(nr >= 2, "C05.rmw", "read-modify-write operations on pool records found", "", fmt.Sprintf("%d read/write-back pairs", nr), fmt.Sprintf("only %d read/write-back pairs found", nr))
+	}
 	// ---------- C05.rmwkey ----------
 	// read-modify-write of an owner's pools: the record is stored under its Owner field; a record created because the
 	// lookup missed must carry the very key that was looked up, or the owner's existing record is overwritten
